@@ -143,7 +143,7 @@ func (t *Dense) Reshape(dims ...int) error {
 
 	// a tensor that owns non-contiguous storage (a clone of a sliced view) cannot be
 	// reshaped either; refuse before the new shape is installed, not after
-	if t.viewOf == 0 && t.o.IsNotContiguous() && t.len() != t.Shape().TotalSize() {
+	if t.viewOf == 0 && t.o.IsNotContiguous() {
 		return errors.Errorf(methodNYI, "Reshape", "tensors with non-contiguous storage")
 	}
 
